@@ -8,7 +8,9 @@ HOOKS = {
     "source_commits": ["verif hook: expose the go/build context configured by goCtx (build/verif_hooks_c18.go)",
                        "verif hook: expose encodeString (compiler/verif_hooks_c14.go)",
                        "verif hook: expose the overlay augmentation entry points (build/verif_hooks_c12.go)",
-                       "verif hook: expose sourcemapx hints/filter and funcContext output plumbing (compiler/verif_hooks_c19.go)"],
+                       "verif hook: expose sourcemapx hints/filter and funcContext output plumbing (compiler/verif_hooks_c19.go)",
+                       "verif hook: expose removeWhitespace, name allocation and encodeIdent (compiler/verif_hooks_c16.go)",
+                       "verif hook: let a session use the build cache (build/verif_hooks_c20.go)"],
     "add_only": True,
 }
 
@@ -24,6 +26,33 @@ NOTES = ("Every check: python3 run.py Cxx --tier quick|thorough. Lean theorems a
 NOT_APPLICABLE = {}
 
 CHECKS = {
+    "C16": {
+        "text": "Lean theorems: the bijective base-26 short-name generator is injective; package-level (upper-case) and local (lower-case) "
+                "short names are disjoint and never reserved; for every history of nested function contexts the names in scope are pairwise "
+                "distinct, fresh and never reserved (the reserved seeding is needed: `do` is the 119th candidate); removeWhitespace "
+                "(transcribed byte scanner) equals the item-level algorithm - only whitespace and comments are dropped, strings and hints "
+                "survive untouched, no out-of-bounds read - and preserves the token sequence under GenWF and SafeAdjacent. Tied to the real "
+                "removeWhitespace/newVariable/encodeIdent through a verif hook (generated token soups, malformed streams exhaustively up "
+                "to length 4-5, every Decl code field of compiled programs, on which GenWF/SafeAdjacent are evaluated) and to generated "
+                "programs built plain and minified and run natively.",
+        "note": "names_distinct assumes the compiler's stack discipline for allocations; minify-off name$n scheme stated, not proved; esbuild "
+                "minification of the prelude is exercised only. Known finding: a Go variable named `console` (plain build fails, minified works).",
+        "technique": "Lean 4 proof (refinement scanner = item algorithm, token automaton simulation, allocator invariant over histories) + differential correspondence through a verif hook + plain/minify/native program comparison",
+    },
+    "C20": {
+        "text": "Lean models of path.Clean/Join, Go %#v quoting, commonKey/packageKey/cachedPath (abstract hash), isTestPackage, Store as "
+                "file-system steps with atomic rename and Load over an abstract envelope. Proved: Clean idempotent and canonical; quoting and "
+                "the rendered key text injective; key injectivity is false of the code (two proved witnesses) and holds for keys without "
+                "dot/empty path elements; Load is sound for every file-system state; provenance over all histories of complete or crashed "
+                "Stores; stale / test-package / missing / damaged => miss; crash atomicity at every prefix of Store's steps; temp names never "
+                "equal final names. Tied to the real build/cache in a scratch cache directory (adversarial configurations, timestamps), "
+                "to exhaustive truncation / byte-flip enumeration of real cache files, to SIGKILL injection (strace) at every write/close/"
+                "rename of Store, and to JS built without cache / cold / warm / damaged cache in fresh processes.",
+        "note": "Not modelled: gzip, gob, SHA-256 (injectivity is a hypothesis), OS rename atomicity, concurrent writers. 6 known findings: key "
+                "collision via path.Join, gzip checksum never verified (altered content accepted, or Sources.Read panics), free-floating "
+                "//go:linkname lost by the serializer, main package '.' shared between project directories. Repairs proposed in fixes/.",
+        "technique": "Lean 4 proof (induction over step sequences and histories, prefix-code argument) + differential correspondence with the real cache + fault enumeration (truncation, flips, strace kill points)",
+    },
     "C06": {
         "text": "Lean models of the JS integer fragment, the {$high,$low} constructor, $mul64/$div64/shift helpers and the per-(type, operator) "
                 "emitted schemes; proved equal to the BitVec specification for + - * / % unary minus, comparisons and all 81 integer "
